@@ -47,7 +47,15 @@ def expanded_calls(cx, mod, stmts, depth=3, _seen=None):
             if isinstance(n.func, ast.Name) and depth > 0 and n.func.id not in seen:
                 hf = cx.fn(mod, n.func.id, required=False)
                 if hf is not None:
-                    out.extend(expanded_calls(cx, mod, hf.body, depth - 1, seen | {n.func.id}))
+                    out.extend(expanded_calls(cx, getattr(hf, '_home', mod), hf.body, depth - 1, seen | {n.func.id}))
+            elif isinstance(n.func, ast.Attribute) and depth > 0 and isinstance(n.func.value, ast.Call) and isinstance(n.func.value.func, ast.Name):
+                # Helper(...).method(...): a method of a class of the package called on a fresh instance
+                hc = cx.cls(mod, n.func.value.func.id, required=False)
+                key_ = '%s.%s' % (n.func.value.func.id, n.func.attr)
+                if hc is not None and key_ not in seen:
+                    r_ = cx.model.find_method(getattr(hc, '_home', mod), hc, n.func.attr)
+                    if r_ is not None:
+                        out.extend(expanded_calls(cx, r_[0], r_[2].body, depth - 1, seen | {key_}))
 
         def visit_FunctionDef(self, n):
             return
@@ -177,7 +185,11 @@ def check(repo, rep):
                cx.where(sa_[0], sa_[2]), 'TokenizerWorker.stop_all:order', 'tokenizer stop at %s, observer stops at %s, reader close at %s' % (selfstop, obstop, rclose),
                sample=dict(stop_all=['self.stop()'] + ['observer.stop()'] * bool(obstop) + ['reader.close()'] * bool(rclose)))
         rep.ob('stop_all closes the reader (which stops the stream saver)', len(rclose) == 1, cx.where(sa_[0], sa_[2]), 'TokenizerWorker.stop_all:reader-close')
-    rep.ob('stop_all stops the observers (a loop over the observer list exists)', looped >= 1, cx.where(sa_[0], sa_[2]), 'TokenizerWorker.stop_all:no-observer-loop')
+    if not looped and any(any(x[0] == 'attr' and x[1] == ('self',) and x[2] in obs_f for x in walk(e[1])) and any(y[0] in ('gen', 'listcomp') or (y[0] == 'call' and term_name(y[1]).split('.')[-1] in ('map', 'filter')) for y in walk(e[1]))
+                          for l in cx.leaves_dyn(sa_) for e in l.effects if e[0] in ('call', 'eval')):
+        rep.unknown('TokenizerWorker.stop_all: the observers are walked by map() / a comprehension, not by a loop statement; what is called on each of them is not followed')
+    else:
+        rep.ob('stop_all stops the observers (a loop over the observer list exists)', looped >= 1, cx.where(sa_[0], sa_[2]), 'TokenizerWorker.stop_all:no-observer-loop')
     # stop = send(STOP) then join  (F7 of C12)
     st = cx.model.find_method(MOD, cx.cls(MOD, 'Worker'), 'stop')
     for l in cx.leaves_dyn(st):
